@@ -34,6 +34,7 @@ type specEnv struct {
 	sig       *types.Signature
 	block     *ssa.BasicBlock
 	bound     int
+	pol       int // +1: formula is a proof goal, -1: an assumption, 0: unknown/mixed
 	errs      []string
 }
 
@@ -580,9 +581,10 @@ func (se *specEnv) call(x *ast.CallExpr) tv {
 		se.overrides = saveOv
 		return r
 	case "old_elem":
-		// old_elem(s, i): element i of slice s as both were at function entry; i itself is a current-state term
-		if !argn(2) {
-			return tv{term: "false", typ: boolT}
+		// old_elem(s, i): element i of slice s as both were at function entry; i itself is a current-state term.
+		// old_elem(s, i, f): field f of element i for a slice of structs.
+		if len(x.Args) != 2 && len(x.Args) != 3 {
+			return se.fail("old_elem expects (slice, index) or (slice, index, field)")
 		}
 		idx := se.eval(x.Args[1])
 		saveOv := se.overrides
@@ -590,8 +592,26 @@ func (se *specEnv) call(x *ast.CallExpr) tv {
 		r := se.withState(se.pre, func() tv {
 			base := se.eval(x.Args[0])
 			sl, ok := base.typ.Underlying().(*types.Slice)
-			if !ok || isStruct(sl.Elem()) {
-				return se.fail("old_elem needs a slice of scalars")
+			if !ok {
+				return se.fail("old_elem needs a slice")
+			}
+			if isStruct(sl.Elem()) {
+				if len(x.Args) != 3 {
+					return se.fail("old_elem on a slice of structs needs a field name")
+				}
+				fid, ok := x.Args[2].(*ast.Ident)
+				if !ok {
+					return se.fail("old_elem: field must be an identifier")
+				}
+				stt := sl.Elem().Underlying().(*types.Struct)
+				for i := 0; i < stt.NumFields(); i++ {
+					if stt.Field(i).Name() == fid.Name {
+						h, _ := se.v.fieldHeap(sl.Elem(), i)
+						ref := fmt.Sprintf("(elem (s_arr %s) (+ (s_off %s) %s))", base.term, base.term, idx.term)
+						return tv{term: sel(se.v.getHeap(se.cur, h), ref), typ: stt.Field(i).Type()}
+					}
+				}
+				return se.fail("old_elem: no field %s", fid.Name)
 			}
 			h, _ := se.v.elemHeap(sl.Elem())
 			return tv{term: sel(sel(se.v.getHeap(se.cur, h), fmt.Sprintf("(s_arr %s)", base.term)), fmt.Sprintf("(+ (s_off %s) %s)", base.term, idx.term)), typ: sl.Elem()}
@@ -616,12 +636,19 @@ func (se *specEnv) call(x *ast.CallExpr) tv {
 		if !argn(2) {
 			return tv{term: "false", typ: boolT}
 		}
-		return tv{term: imp(se.evalBool(x.Args[0]), se.evalBool(x.Args[1])), typ: boolT}
+		se.pol = -se.pol
+		ante := se.evalBool(x.Args[0])
+		se.pol = -se.pol
+		return tv{term: imp(ante, se.evalBool(x.Args[1])), typ: boolT}
 	case "iff":
 		if !argn(2) {
 			return tv{term: "false", typ: boolT}
 		}
-		return tv{term: eq(se.evalBool(x.Args[0]), se.evalBool(x.Args[1])), typ: boolT}
+		savePol := se.pol
+		se.pol = 0
+		l, r := se.evalBool(x.Args[0]), se.evalBool(x.Args[1])
+		se.pol = savePol
+		return tv{term: eq(l, r), typ: boolT}
 	case "ite":
 		if !argn(3) {
 			return tv{term: "false", typ: boolT}
@@ -657,11 +684,26 @@ func (se *specEnv) call(x *ast.CallExpr) tv {
 		} else {
 			delete(se.names, vid.Name)
 		}
-		bn, rng, body = rebaseQuant(bn, rng, body)
-		if id.Name == "all" {
-			return tv{term: fmt.Sprintf("(forall ((%s Int)) %s)", bn, imp(rng, body)), typ: boolT}
+		allowRef := se.pol != 0
+		if id.Name == "ex" {
+			allowRef = se.pol > 0
 		}
-		return tv{term: fmt.Sprintf("(exists ((%s Int)) %s)", bn, and(rng, body)), typ: boolT}
+		nb, guard, rng2, body2, side, kind := bn, "", rng, body, "", ""
+		if !strings.HasSuffix(vid.Name, "_") {
+			// (a bound variable whose name ends in '_' is a position, not an element index: never rebased)
+			nb, guard, rng2, body2, side, kind = rebaseQuant(bn, rng, body, allowRef)
+		}
+		if kind == "ref" {
+			rng2 = and(guard, rng2)
+		}
+		if id.Name == "all" {
+			f := fmt.Sprintf("(forall ((%s Int)) %s)", nb, imp(rng2, body2))
+			if kind == "ref" && se.pol > 0 {
+				f = and(f, side)
+			}
+			return tv{term: f, typ: boolT}
+		}
+		return tv{term: fmt.Sprintf("(exists ((%s Int)) %s)", nb, and(rng2, body2)), typ: boolT}
 	case "forall_u64", "forall_i64", "forall_u8", "forall_u32":
 		// typed universal quantifier (bit-vector in arith bv, ranged Int otherwise)
 		if !argn(2) {
@@ -890,7 +932,10 @@ func (se *specEnv) eval(e ast.Expr) tv {
 	case *ast.UnaryExpr:
 		switch x.Op {
 		case token.NOT:
-			return tv{term: not(se.evalBool(x.X)), typ: boolT}
+			se.pol = -se.pol
+			inner := se.evalBool(x.X)
+			se.pol = -se.pol
+			return tv{term: not(inner), typ: boolT}
 		case token.SUB:
 			a := se.eval(x.X)
 			if a.typ != nil && se.v.sc.isBVType(a.typ) {
